@@ -11,8 +11,8 @@ standard function's answer computed from the memory contents restricted to the f
 (`slen`) elements; no constraint handler ran (`events` unchanged); the final state IS the initial
 state (so in particular no operand was modified).
 
-Where the C does not satisfy the property the FULL statement is kept in the doc comment, the
-theorem proved is `…_partial` under the hypothesis the proof forces, and `…_witness` exhibits a
+Where the C does not satisfy the property the FULL statement is kept in the doc comment, what is
+proved is `…_partial` under the hypothesis the proof forces, and `…_witness` exhibits a
 concrete input outside the hypothesis on which the model (= the code) gives the wrong answer;
 each witness corresponds to an entry of `known_findings.jsonl`.
 
@@ -168,5 +168,139 @@ theorem firstDiff_spec (d : Nat → Nat) (p q n : Nat) :
     (∀ i, firstDiff d p q n = some i → i < n ∧ d (p+i) ≠ d (q+i) ∧ ∀ j, j < i → d (p+j) = d (q+j)) ∧
     (firstDiff d p q n = none → ∀ j, j < n → d (p+j) = d (q+j)) :=
   ⟨fun i => firstDiff_some d p q n i, firstDiff_none d p q n⟩
+
+end SafeC.Props.C10
+
+namespace SafeC.Props.C10
+open SafeC Gen
+
+/-! ## spans -/
+
+/-- **strspn_s**: the length of the initial segment of `dest` (first `dmax` characters, stopping at
+its NUL) made only of characters of the string `src` (its first `slen` characters) -/
+theorem strspn_s_C10 (dest dmax src slen : Nat) (st : St) (hall : AllRd st)
+    (hd : dest ≠ 0) (hs : src ≠ 0) (hpos : 0 < dmax) (hle : dmax ≤ RSIZE_MAX_STR)
+    (hspos : 0 < slen) (hsle : slen ≤ RSIZE_MAX_STR) :
+    exec (strspn_s dest dmax src slen none none) st =
+      .ok ((EOK, spanLen st.data true src slen dest dmax), st) := by
+  unfold strspn_s qChkS qChkSlenS
+  have h1 : ¬ dmax = 0 := by omega
+  have h2 : ¬ dmax > RSIZE_MAX_STR := by omega
+  have h3 : ¬ slen = 0 := by omega
+  have h4 : ¬ slen > RSIZE_MAX_STR := by omega
+  have h5 : ¬ (some src = some 0) := by simpa using hs
+  simp only [hd, h1, h2, h3, h4, h5, if_false, exec_bind, exec_pure, spanOuter_eq hall]
+  simp
+
+/-- **strcspn_s**: the length of the initial segment made only of characters NOT in `src` -/
+theorem strcspn_s_C10 (dest dmax src slen : Nat) (st : St) (hall : AllRd st)
+    (hd : dest ≠ 0) (hs : src ≠ 0) (hpos : 0 < dmax) (hle : dmax ≤ RSIZE_MAX_STR)
+    (hspos : 0 < slen) (hsle : slen ≤ RSIZE_MAX_STR) :
+    exec (strcspn_s dest dmax src slen none none) st =
+      .ok ((EOK, spanLen st.data false src slen dest dmax), st) := by
+  unfold strcspn_s qChkS
+  have h1 : ¬ dmax = 0 := by omega
+  have h2 : ¬ dmax > RSIZE_MAX_STR := by omega
+  have h3 : ¬ slen = 0 := by omega
+  have h4 : ¬ slen > RSIZE_MAX_STR := by omega
+  have h5 : ¬ (some src = some 0) := by simpa using hs
+  simp only [hd, h1, h2, h3, h4, h5, if_false, exec_bind, exec_pure, spanOuter_eq hall]
+  simp [exec_bind, spanOuter_eq hall]
+
+/-- what `spanLen` means: bounded by `n`, every counted cell is non-NUL and (not) in the set, and
+the cell that stopped the count — if inside `n` — is NUL or on the other side of the set -/
+theorem spanLen_spec (d : Nat → Nat) (want : Bool) (src slen p n : Nat) :
+    spanLen d want src slen p n ≤ n ∧
+    (∀ i, i < spanLen d want src slen p n → d (p+i) ≠ 0 ∧ inSet d (d (p+i)) src slen = want) ∧
+    (spanLen d want src slen p n < n →
+      d (p + spanLen d want src slen p n) = 0 ∨ inSet d (d (p + spanLen d want src slen p n)) src slen ≠ want) := by
+  induction n generalizing p with
+  | zero => simp [spanLen]
+  | succ n ih =>
+    obtain ⟨i1, i2, i3⟩ := ih (p+1)
+    simp only [spanLen]
+    by_cases h0 : d p = 0
+    · simp [h0]
+    · simp only [h0, if_false]
+      by_cases hw : inSet d (d p) src slen = want
+      · simp only [hw, if_true]
+        refine ⟨by omega, ?_, ?_⟩
+        · intro i hi
+          cases i with
+          | zero => exact ⟨by simpa using h0, by simpa using hw⟩
+          | succ i =>
+            have := i2 i (by omega)
+            simpa [Nat.add_assoc, Nat.add_comm 1 i] using this
+        · intro hlt
+          have := i3 (by omega)
+          simpa [Nat.add_assoc, Nat.add_comm 1] using this
+      · simp only [hw, if_false]
+        exact ⟨by omega, fun i hi => by omega, fun _ => Or.inr (by simpa using hw)⟩
+
+end SafeC.Props.C10
+
+namespace SafeC.Props.C10
+open SafeC Gen
+
+/-! ## strcmp_s
+
+FULL statement (false of the code): *for valid operands the value stored through `resultp` has the
+sign of `strcmp` restricted to the first `dmax` characters (unsigned char comparison)*.
+The code (a) subtracts plain — signed — `char`s and (b) when neither string ends nor differs within
+`dmax` characters, subtracts the cells at index `dmax`, outside the compared extent.  Hence the
+partial theorem (stop inside `dmax`, both cells 7-bit) and the two witnesses. -/
+
+/-- what `strcmp_s` computes on ANY memory: plain-`char` difference at `stopIdx` -/
+theorem strcmp_s_eq (dest dmax src : Nat) (st : St) (hall : AllRd st)
+    (hd : dest ≠ 0) (hs : src ≠ 0) (hpos : 0 < dmax) (hle : dmax ≤ RSIZE_MAX_STR) :
+    exec (strcmp_s dest dmax src none none) st =
+      .ok ((EOK, schar (st.data (dest + stopIdx st.data dest src dmax)) -
+                 schar (st.data (src + stopIdx st.data dest src dmax))), st) := by
+  unfold strcmp_s qChkS
+  have h1 : ¬ dmax = 0 := by omega
+  have h2 : ¬ dmax > RSIZE_MAX_STR := by omega
+  have h5 : ¬ (some src = some 0) := by simpa using hs
+  simp only [hd, h1, h2, h5, if_false, exec_bind, exec_pure, strcmpLoop_eq hall]
+
+/-- **strcmp_s, partial**: when the comparison is decided inside the first `dmax` characters
+(`stopIdx < dmax`: one string ends or they differ there) and the two deciding characters are 7-bit,
+the result is their difference as UNSIGNED characters — zero iff the strings are equal up to there,
+and of `strcmp`'s sign otherwise. -/
+theorem strcmp_s_C10_partial (dest dmax src : Nat) (st : St) (hall : AllRd st)
+    (hd : dest ≠ 0) (hs : src ≠ 0) (hpos : 0 < dmax) (hle : dmax ≤ RSIZE_MAX_STR)
+    (_hin : stopIdx st.data dest src dmax < dmax)
+    (ha : st.data (dest + stopIdx st.data dest src dmax) < 128)
+    (hb : st.data (src + stopIdx st.data dest src dmax) < 128) :
+    exec (strcmp_s dest dmax src none none) st =
+      .ok ((EOK, (st.data (dest + stopIdx st.data dest src dmax) : Int) -
+                 (st.data (src + stopIdx st.data dest src dmax) : Int)), st) := by
+  rw [strcmp_s_eq dest dmax src st hall hd hs hpos hle]
+  simp [schar, ha, hb]
+
+/-- memory for the witnesses: `dest` at 100, `src` at 200 -/
+def wMem (f : Nat → Nat) : St := { data := f, mapped := fun _ => true, rd := fun _ => true, wr := fun _ => false }
+theorem wMem_all (f : Nat → Nat) : AllRd (wMem f) := fun _ => ⟨rfl, rfl⟩
+
+/-- (a) signed comparison: `strcmp_s("\x80", 2, "a")` stores a NEGATIVE value; `strcmp` says positive
+(0x80 > 0x61 as unsigned char). Known finding `signed-char-compare`. -/
+theorem strcmp_s_signed_witness :
+    exec (strcmp_s 100 2 200 none none) (wMem fun a => if a = 100 then 128 else if a = 200 then 97 else 0) =
+      .ok ((EOK, -225), wMem fun a => if a = 100 then 128 else if a = 200 then 97 else 0) := by
+  rw [strcmp_s_eq _ _ _ _ (wMem_all _) (by decide) (by decide) (by decide) (by decide)]
+  simp [wMem, stopIdx, schar]
+
+/-- (b) result taken from outside the compared extent: `dest = "ab…"`, `src = "ac…"` compared over
+`dmax = 1` character are EQUAL within the extent, yet the value stored is `'b' - 'c' = -1`.
+Known finding `compare-uses-dest-dmax`. -/
+theorem strcmp_s_outside_witness :
+    exec (strcmp_s 100 1 200 none none)
+        (wMem fun a => if a = 100 then 97 else if a = 101 then 98 else if a = 200 then 97 else if a = 201 then 99 else 0) =
+      .ok ((EOK, -1),
+        wMem fun a => if a = 100 then 97 else if a = 101 then 98 else if a = 200 then 97 else if a = 201 then 99 else 0) := by
+  rw [strcmp_s_eq _ _ _ _ (wMem_all _) (by decide) (by decide) (by decide) (by decide)]
+  simp [wMem, stopIdx, schar]
+
+example : ∃ st : St, AllRd st ∧ stopIdx st.data 100 200 4 < 4 ∧ st.data (100 + stopIdx st.data 100 200 4) < 128 :=
+  ⟨wMem fun a => if a = 100 then 97 else if a = 200 then 97 else 0, wMem_all _, by decide, by decide⟩
 
 end SafeC.Props.C10
